@@ -1732,7 +1732,14 @@ class Network(Cached):
         :rtype: 1d numpy array [node] of floats >= 0
         """
         k = self.degree() * 1.0
-        return self.undirected_adjacency() * k / k[k != 0]
+        #  number of neighbours (a reciprocated pair of links is one neighbour)
+        n_nb = np.asarray(
+            self.undirected_adjacency().sum(axis=1)).flatten()
+        #  nodes without neighbours get zero instead of breaking the division
+        res = np.zeros(self.N)
+        res[n_nb != 0] = ((self.undirected_adjacency() * k)[n_nb != 0]
+                          / n_nb[n_nb != 0])
+        return res
 
     @Cached.method(name="maximum neighbours' degrees")
     def max_neighbors_degree(self):
